@@ -137,6 +137,13 @@ CLAIMED["C17"] = dict(
     ref="DESIGN.md 4/C17",
 )
 
+CLAIMED["C24"] = dict(
+    technique="who-may-call rule over the generator's module closure for run-varying sources (clocks, ids, unseeded random generators, directory listings, hash/id); light set-type inference flagging order-sensitive iteration over hash-ordered sets (closed triage table); hidden-state analysis (module-level containers mutated by functions, memoising decorators, mutated defaults, function attributes, shared class containers); dataflow of output paths to the unit's directory and test-case name; registration/name-distinctness and picklability checks of the units of work",
+    text="Byte equality of output trees across runs, orders and concurrent interleavings is behaviour and is not decided. Decided necessary conditions: nothing on the closure reads a source that differs between runs/processes/hash seeds; no function keeps state between calls (so a fresh worker computes what the serial run computes); every created file is named from the unit's own directory and the test case's name, names are distinct per registry, shared directories are created with exist_ok; serial and parallel iterate the same list of picklable module-level units.",
+    note="Trusted: table of run-varying library calls; local set-type inference. Four set iterations triaged as error-message-only or int-element sets.",
+    ref="DESIGN.md 4/C24",
+)
+
 CLAIMED["C09"] = dict(
     technique="must/may event flow over picture_decode (ordering of inverse transform, clip, offset before the output callback; single invocation; argument wiring) and call-site placement of picture_decode in parse_sequence; completion-flag provenance",
     text="Sample ranges and dimensions come from spec-pinned arithmetic and are not decided. Decided on all paths: what reaches the output callback has been transformed, clipped and offset in that order; the callback runs at most once per decoded picture with the right arguments; the picture number is the coded one; a picture is decoded exactly once per picture data unit and once per completed fragmented picture.",
